@@ -9,9 +9,9 @@ import (
 	"github.com/lightninglabs/pool/sidecar"
 )
 
-// VerifDigestValidateAndSignTicket exposes the unexported
+// VerifC14ValidateAndSignTicket exposes the unexported
 // manager.validateAndSignTicketForOrder to the verification harness (C14).
-func VerifDigestValidateAndSignTicket(ctx context.Context, cfg *ManagerConfig,
+func VerifC14ValidateAndSignTicket(ctx context.Context, cfg *ManagerConfig,
 	t *sidecar.Ticket, bid *Bid, acct *account.Account) error {
 
 	return NewManager(cfg).validateAndSignTicketForOrder(ctx, t, bid, acct)
